@@ -5,7 +5,7 @@ from ..harness import scn, gen, obs as O, pyeval
 from . import base_scn
 
 pid = 'C03'
-gen_modules = ['tr_state', 'tr_validators', 'tr_has_patcher', 'tr_contracts', 'tr_decorators', 'tr_pin_contracts', 'tr_rest_validators', 'tr_rest_patcher', 'tr_rest_state', 'tr_rest_lintcontract', 'tr_rest_contractsconst']
+gen_modules = ['tr_state', 'tr_validators', 'tr_has_patcher', 'tr_contracts', 'tr_decorators', 'tr_pin_contracts', 'tr_rest_validators', 'tr_rest_patcher', 'tr_rest_state', 'tr_rest_lintcontract', 'tr_rest_contractsconst', 'tr_rest_decorators']
 model_targets = ['Sem/Scenario.v']
 hand_modelled = ['coq/Py/Sig.v', 'coq/Sem/Model.v', 'coq/Core/Base.v: classes carry their MRO (computed by CPython for every scenario class)']
 explanation = ('Theorems about the except-block of the generated wrappers for arbitrary class tables; correspondence + monitor over random '
@@ -208,5 +208,66 @@ def run(ctx, fr, model_available=True):
     fr.distribution['admits_cases'] = len(cases)
     fr.samples.append({'family': 'admits', 'case': cases[3], 'runtime/linter-ast/linter-astroid/cases': res[3]})
     fr.rule += '; plus the admits-agree family: every single-type declaration x raised class over 11 builtin exceptions (exhaustive), two-type and stacked declarations (sampled; exhaustive in the thorough tier), judged by runtime, both linter back-ends and deal.cases'
+INHERIT_SRC = r"""
+import deal, asyncio
+__name__ = "c03_inherit_probe"
+def probe():
+    # raises / reason contracts that reach a method through deal.inherit classify its exceptions like its own
+    bad = []
+    for kind in ("sync", "async", "gen"):
+        class Base:
+            @deal.raises(ZeroDivisionError, KeyError)
+            @deal.reason(ZeroDivisionError, lambda self, x, y: y == 0)
+            def div(self, x, y): return 0
+        if kind == "sync":
+            def div(self, x, y):
+                if y == 7: raise ZeroDivisionError("bogus")
+                if y == 8: raise ValueError("undeclared")
+                if y == 9: raise KeyError("declared")
+                return x / y
+        elif kind == "async":
+            async def div(self, x, y):
+                if y == 7: raise ZeroDivisionError("bogus")
+                if y == 8: raise ValueError("undeclared")
+                if y == 9: raise KeyError("declared")
+                return x / y
+        else:
+            def div(self, x, y):
+                if y == 7: raise ZeroDivisionError("bogus")
+                if y == 8: raise ValueError("undeclared")
+                if y == 9: raise KeyError("declared")
+                yield x / y
+        for how in ("method", "class"):
+            Child = type("Child", (Base,), {"div": deal.inherit(div) if how == "method" else div})
+            if how == "class": Child = deal.inherit(Child)
+            for y, want in ((1, "ok"), (0, "ZeroDivisionError"), (7, "ReasonContractError"), (8, "RaisesContractError"), (9, "KeyError")):
+                try:
+                    r = Child().div(1, y)
+                    if kind == "async": asyncio.run(r)
+                    elif kind == "gen": list(r)
+                    got = "ok"
+                except BaseException as e: got = type(e).__name__
+                if got != want: bad.append([kind, how, y, got, want])
+    return bad
+"""
+
+
+def inherit_probe(ctx, fr):
+    from ..harness import impl
+    r = impl.run_impl('pyexec.py', {'src': INHERIT_SRC, 'calls': [['probe', []]]})[0]
+    fr.evaluations += 30; fr.add_nontrivial({'inherit_probe': 1})
+    fr.samples.append({'family': 'inherited raises / reason', 'deviations': r})
+    if isinstance(r, dict): fr.errors.append('C03 inherit probe failed: ' + str(r)[:400])
+    elif r:
+        fr.violations.append({'scenario': {'family': 'inherited-raises-reason', 'case': r[0]}, 'impl': r[:5], 'signature': None,
+                              'what': f'[kind, inherit on, y, observed, expected] = {r[0]}: exception contracts inherited through deal.inherit'})
+
+
+_run_main = run
+def run(ctx, fr, model_available=True):
+    _run_main(ctx, fr, model_available)
+    inherit_probe(ctx, fr)
+
+
 def search(ctx, fr, model_available=True): return base_scn.search(_me, ctx, fr, model_available)
 classify = base_scn.classify
